@@ -242,7 +242,8 @@ PROPS = {
                   "Evl.Json.read_esc", "Evl.C14.type_decodes_back", "Evl.C14.ascii_type_decodes_back",
                   "Evl.Json.render_toks", "Evl.Json.parseV_render", "Evl.Json.parse_render", "Evl.Json.image_clean",
                   "Evl.C14.line_parses_back", "Evl.C14.line_determines_payload"],
-        runs=[dict(model="json", sub="json", driver="json", quick=["-n", "6000"], thorough=["-n", "300000"], search=["-n", "60000"])],
+        runs=[dict(model="json", sub="json", driver="json", quick=["-n", "6000"], thorough=["-n", "300000"], search=["-n", "60000"]),
+              race_run("stock", 3, 40, 12)],
         oracle_prefixes=["C14"], models=["M8 Json", "M8r JsonParse", "M9 Sinks(table)"],
         trusted_base=TB_COMMON,
         assumptions=["encoding/json on leaves: number tokens (strconv) and time.Time's RFC 3339 rendering are passed verbatim to the model; map keys are sorted bytewise by the encoder",
